@@ -1,27 +1,26 @@
 import BtcwVerif.Lemmas.Balance
 import BtcwVerif.Lemmas.InvPres
 import BtcwVerif.Lemmas.WFMined
+import BtcwVerif.Lemmas.WFRollback
+import BtcwVerif.Lemmas.Calls
 /-!
 # C01 — balance and spendable outputs equal ledger truth
 
-What is proved here (all stores / instants / minConf / syncHeight of the model, no bounds):
+Proved here (all stores / histories / instants / minConf / syncHeight of the model, no bounds):
 
-* `C01_balance_partial` — on every store satisfying the representation invariant `Inv` (the two state descriptions
-  of the property anchors: *counter = total of mined credits without mined spender*, *unspent index = exactly those
-  credits*), `Balance` — a counter corrected by three passes over three different buckets — returns exactly the C01
-  sentence evaluated on the store's own records (`storeTruth`): mined credits without a mined spender that are not
-  leased, not spent by an unconfirmed transaction, with at least `minConf` confirmations and, if coinbase, mature;
-  plus, at `minConf = 0`, the unconfirmed credits that are neither leased nor spent.  It never double-subtracts
-  (leased ∧ unconfirmed-spent, leased ∧ immature) and its block window (`syncHeight − max minConf maturity`) misses
-  no credit.
+* `C01_balance` — after EVERY chain-consistent history of store calls starting from the empty store (unconfirmed and
+  confirmed inserts with redelivery, credits, abandonments, `Rollback` to any height and reconnection, leases, sweeps),
+  `Balance` — a counter corrected by three passes over three buckets — equals the C01 sentence evaluated on the
+  store's own records (`storeTruth`).  Chain consistency is `Call.Pre`, read on the store at each call.
+  It rests on `C01_inv_reachable` (the representation invariant holds after every such history: `wf2_run`, which uses
+  `wf2_insertMinedTx`, `wf2_addCredit_mined`, `wf2_rollback` and the preservation lemmas for the unconfirmed/lease
+  operations) and `C01_balance_inv` (Balance = formula under the invariant).
 * `C01_utxos_sound/_complete` — `UnspentOutputs` lists exactly the entries of the unspent index and of the unconfirmed
   credits that are neither leased nor spent by an unconfirmed transaction.
+* `C01_rollback_restores_spent_credit` — the former zero-value-credit defect, as a positive statement.
 
-`_partial`: what is NOT proved is that `Inv` is preserved by `insertMinedTx`, `rollback`, `removeConflict`
-(hence holds after every consistent history) and that the store's records are those of the `Ledger` (`step_repr`).
-Both are checked at run time instead: the driver evaluates `invB` and `balance = storeTruth` after every operation of
-every generated consistent history (op `inv`), and `Ledger.balance` is compared with the model and with the real
-`wtxmgr.Store.Balance` (ops `spec probe`/`probe`).
+NOT proved: that the store's records are those of the `Ledger` specification (`step_repr`), i.e. `storeTruth` =
+`Ledger.balance`; that equality is checked at run time (ops `spec probe` / `probe`: Lean spec = Lean model = real Go).
 -/
 namespace TxStore.C01
 open TxStore KMap
@@ -29,7 +28,7 @@ open TxStore KMap
 /-- **Balance = the C01 sentence on the store's own records**, for every store satisfying `Inv`, every instant,
 every coinbase maturity, every `minConf` and every `syncHeight` (negative and below-tip values included).
 (Proof: `balance_eq_storeTruth` in Lemmas/Balance.lean.) -/
-theorem C01_balance_partial (s : Store) (hinv : Inv s) (now : Nat) (mat m sy : Int) :
+theorem C01_balance_inv (s : Store) (hinv : Inv s) (now : Nat) (mat m sy : Int) :
     balance s now mat m sy = .ok (storeTruth s now mat m sy) := balance_eq_storeTruth s hinv now mat m sy
 
 /-! ### `UnspentOutputs` -/
@@ -234,276 +233,34 @@ theorem invB_sound (s : Store) (h : invB s = true) : Inv s := by
 /-- the freshly created store satisfies the invariant -/
 theorem C01_inv_init : Inv Store.empty := invB_sound _ (by decide)
 
-/-- one API call of the events *seen*, *abandoned*, *lease*, *release*, *sweep* -/
-inductive UnminedOp
-  | insertUnmined (rec : Tx)                       -- InsertTx(rec, nil)
-  | addCreditUnmined (rec : Tx) (i : Nat) (chg : Bool)   -- AddCredit(rec, nil, i, chg)
-  | removeUnmined (rec : Tx)                       -- RemoveUnminedTx(rec)
-  | lock (id : Nat) (op : OutPoint) (d : Int)
-  | unlock (id : Nat) (op : OutPoint)
-  | sweep
+/-- **the representation invariant holds after every chain-consistent history of store calls** (any length; inserts,
+redeliveries, credits, abandonments, `Rollback` to any height, reconnects, leases, sweeps; any clock values) -/
+theorem C01_inv_reachable (ops : List (Nat × Call)) (hp : PreAll Store.empty ops) : Inv (runCalls Store.empty ops) :=
+  inv_of_wf _ (wf2_runCalls _ wf2_empty ops hp).wf
 
-/-- effect of such a call at clock `now` (a failing call leaves the store unchanged: the DB transaction rolls back) -/
-def UnminedOp.run (s : Store) (now : Nat) : UnminedOp → Store
-  | .insertUnmined rec => match insertTx s rec none with | .ok (_, s') => s' | .error _ => s
-  | .addCreditUnmined rec i chg => match addCredit s rec none i chg with | .ok s' => s' | .error _ => s
-  | .removeUnmined rec => match removeUnminedTx s rec with | .ok s' => s' | .error _ => s
-  | .lock id op d => match lockOutput s now id op d with | .ok (_, s') => s' | .error _ => s
-  | .unlock id op => match unlockOutput s now id op with | .ok s' => s' | .error _ => s
-  | .sweep => deleteExpiredLockedOutputs s now
-
-theorem sameMined_run (s : Store) (now : Nat) (o : UnminedOp) : SameMined s (o.run s now) := by
-  cases o with
-  | insertUnmined rec =>
-    simp only [UnminedOp.run]
-    split
-    · rename_i ex s' h
-      unfold insertTx at h
-      simp only at h
-      split at h
-      · cases h; exact SameMined.refl s
-      · cases h
-      · rename_i s2 h2; cases h; exact sameMined_insertMemPoolTx h2
-    · exact SameMined.refl s
-  | addCreditUnmined rec i chg =>
-    simp only [UnminedOp.run]
-    split
-    · rename_i s' h; exact sameMined_addCredit_unmined h
-    · exact SameMined.refl s
-  | removeUnmined rec =>
-    simp only [UnminedOp.run]
-    split
-    · rename_i s' h; exact sameMined_removeUnminedTx h
-    · exact SameMined.refl s
-  | lock id op d =>
-    simp only [UnminedOp.run]
-    split
-    · rename_i e s' h; exact sameMined_lockOutput h
-    · exact SameMined.refl s
-  | unlock id op =>
-    simp only [UnminedOp.run]
-    split
-    · rename_i s' h; exact sameMined_unlockOutput h
-    · exact SameMined.refl s
-  | sweep => exact sameMined_sweep s now
-
-/-- **the invariant is preserved** by every sequence (any length, any clock values) of the API calls that make up
-the events *seen*, *abandoned*, *lease*, *release*, *sweep*, *clock* — including malformed calls (unknown
-transactions, duplicate deliveries, removal of a transaction that is not unconfirmed).
-`_partial`: the two remaining events, *confirmed* (`insertMinedTx` + mined `addCredit`) and *disconnected*
-(`rollback`), are not covered by a proof; the driver checks `invB` after each of them on every generated history. -/
-theorem C01_inv_preserved_partial (s : Store) (h : Inv s) (ops : List (Nat × UnminedOp)) :
-    Inv (ops.foldl (fun s p => p.2.run s p.1) s) := by
-  induction ops generalizing s with
-  | nil => exact h
-  | cons p t ih => exact ih _ (inv_of_sameMined (sameMined_run s p.1 p.2) h)
-
-/-- consequently `Balance` stays equal to the C01 formula along every such sequence, at every instant -/
-theorem C01_balance_along_unmined_events_partial (s : Store) (h : Inv s) (ops : List (Nat × UnminedOp))
-    (now : Nat) (mat m sy : Int) :
-    let s' := ops.foldl (fun s p => p.2.run s p.1) s
-    balance s' now mat m sy = .ok (storeTruth s' now mat m sy) :=
-  C01_balance_partial _ (C01_inv_preserved_partial s h ops) now mat m sy
-
-/-- `rollback`, input loop (the step that used to lose zero-value credits; fixed in /repo 7fa9939): when the rolled-back
-transaction has a debit for this input and the credit it spent still exists — WHATEVER its amount, zero included — the
-credit is marked unspent again, its outpoint is put back into the unspent index under the credit's block, the debit is
-deleted and the running mined balance grows by the credit's amount. -/
-theorem C01_rollback_restores_spent_credit (rec : Tx) (blk : Block) (r : RB) (i : Nat) (inp : OutPoint)
-    (d : DebitVal) (cv : CreditVal)
-    (hd : r.s.debits.find? ⟨rec.hash, blk, i⟩ = some d) (hc : r.s.credits.find? d.credKey = some cv) :
-    let r' := rbInput rec blk r (i, inp)
-    r'.s.unspent.find? inp = some d.credKey.block ∧
-    r'.s.credits.find? d.credKey = some { cv with spent := false, spender := none } ∧
-    r'.s.debits.find? ⟨rec.hash, blk, i⟩ = none ∧
-    r'.bal = r.bal + cv.amount := by
-  have hd' : (putRawUnminedInput r.s inp rec.hash).debits.find? ⟨rec.hash, blk, i⟩ = some d := hd
-  have hc' : (putRawUnminedInput r.s inp rec.hash).credits.find? d.credKey = some cv := hc
-  simp only [rbInput, hd', unspendRawCredit, hc', contains_eq, find?_insert_self, Option.isSome_some,
-    Bool.not_true, Bool.false_eq_true, if_false, find?_erase_self]
-  exact ⟨trivial, trivial, trivial, trivial⟩
-
-/-! ### all store operations except `Rollback`: the lookup-level invariant `WF` (which implies `Inv`) is preserved -/
-
-/-- one call of the store API (the calls the wallet makes for the events *seen*, *confirmed*, *abandoned*, *lease*,
-*release*, *sweep*) -/
-inductive Call
-  | insertUnmined (rec : Tx)
-  | addCreditUnmined (rec : Tx) (i : Nat) (chg : Bool)
-  | insertMined (rec : Tx) (bm : BlockMeta)
-  | addCreditMined (rec : Tx) (bm : BlockMeta) (i : Nat) (chg : Bool)
-  | removeUnmined (rec : Tx)
-  | lock (id : Nat) (op : OutPoint) (d : Int)
-  | unlock (id : Nat) (op : OutPoint)
-  | sweep
-
-/-- effect at clock `now`; a failing call leaves the store unchanged (the DB transaction rolls back) -/
-def Call.run (s : Store) (now : Nat) : Call → Store
-  | .insertUnmined rec => match insertTx s rec none with | .ok (_, s') => s' | .error _ => s
-  | .addCreditUnmined rec i chg => match addCredit s rec none i chg with | .ok s' => s' | .error _ => s
-  | .insertMined rec bm => match insertTx s rec (some bm) with | .ok (_, s') => s' | .error _ => s
-  | .addCreditMined rec bm i chg => match addCredit s rec (some bm) i chg with | .ok s' => s' | .error _ => s
-  | .removeUnmined rec => match removeUnminedTx s rec with | .ok s' => s' | .error _ => s
-  | .lock id op d => match lockOutput s now id op d with | .ok (_, s') => s' | .error _ => s
-  | .unlock id op => match unlockOutput s now id op with | .ok s' => s' | .error _ => s
-  | .sweep => deleteExpiredLockedOutputs s now
-
-/-- chain consistency, read on the store: a transaction is confirmed in a block only if it is already recorded there
-(redelivery) or recorded nowhere, the block at that height (if any) has that hash, and the unconfirmed credits kept for
-its hash are outputs of it; a mined credit is added only for a transaction recorded in that block. -/
-def Call.Pre (s : Store) : Call → Prop
-  | .insertMined rec bm => s.txrecs.contains ⟨rec.hash, bm.block⟩ = true ∨ ConfirmPre s rec bm
-  | .addCreditMined rec bm _ _ => s.txrecs.find? ⟨rec.hash, bm.block⟩ = some rec
-  | _ => True
-
-theorem wf_run (s : Store) (now : Nat) (c : Call) (hw : WF s) (hp : c.Pre s) : WF (c.run s now) := by
-  cases c with
-  | insertUnmined rec =>
-    simp only [Call.run]
-    split
-    · rename_i ex s' h
-      unfold insertTx at h
-      simp only at h
-      split at h
-      · cases h; exact hw
-      · cases h
-      · rename_i s2 h2
-        have hsm := sameMined_insertMemPoolTx h2
-        have huc : s2.unminedCredits = s.unminedCredits := by
-          unfold insertMemPoolTx at h2
-          split at h2
-          · cases h2
-          · split at h2
-            · cases h2; rfl
-            · cases h2
-              have : ∀ (l : List OutPoint) (a : Store),
-                  (l.foldl (fun s inp => putRawUnminedInput s inp rec.hash) a).unminedCredits = a.unminedCredits := by
-                intro l; induction l with
-                | nil => intro a; rfl
-                | cons x t ih => intro a; rw [List.foldl_cons, ih]; rfl
-              exact this rec.ins _
-        have hw2 := wf_of_sameMined hsm (by rw [huc]; exact hw.nodupUC) hw
-        cases h; exact hw2
-    · exact hw
-  | addCreditUnmined rec i chg =>
-    simp only [Call.run]
-    split
-    · rename_i s' h
-      have hsm := sameMined_addCredit_unmined h
-      have hn : NodupKeys s'.unminedCredits := by
-        unfold addCredit at h
-        split at h
-        · cases h
-        · simp only at h
-          split at h
-          · cases h; exact hw.nodupUC
-          · split at h
-            · cases h; exact hw.nodupUC
-            · cases h; exact nodupKeys_insert _ _ _ hw.nodupUC
-      exact wf_of_sameMined hsm hn hw
-    · exact hw
-  | insertMined rec bm =>
-    simp only [Call.run]
-    split
-    · rename_i ex s' h
-      unfold insertTx at h
-      simp only at h
-      split at h
-      · cases h; exact hw
-      · cases h
-      · rename_i s2 h2
-        have hw2 : WF s2 := by
-          rcases hp with hdup | hpre
-          · unfold insertMinedTx at h2
-            simp [hdup] at h2
-          · exact wf_insertMinedTx hw hpre h2
-        cases h; exact hw2
-    · exact hw
-  | addCreditMined rec bm i chg =>
-    simp only [Call.run]
-    split
-    · rename_i s' h; exact wf_addCredit_mined hw h hp
-    · exact hw
-  | removeUnmined rec =>
-    simp only [Call.run]
-    split
-    · rename_i s' h
-      exact wf_of_sameMined (sameMined_removeUnminedTx h) (nuc_removeConflict _ _ _ _ h hw.nodupUC) hw
-    · exact hw
-  | lock id op d =>
-    simp only [Call.run]
-    split
-    · rename_i e s' h
-      have hsm := sameMined_lockOutput h
-      have huc : s'.unminedCredits = s.unminedCredits := by
-        by_cases hk : isKnownOutput s op = true
-        · cases hl : isLockedOutput s op now with
-          | none => simp [lockOutput, hk, hl] at h; obtain ⟨_, rfl⟩ := h; rfl
-          | some l =>
-            by_cases hid : l.id = id
-            · simp [lockOutput, hk, hl, hid] at h; obtain ⟨_, rfl⟩ := h; rfl
-            · simp [lockOutput, hk, hl, hid] at h
-        · simp [lockOutput, hk] at h
-      exact wf_of_sameMined hsm (by rw [huc]; exact hw.nodupUC) hw
-    · exact hw
-  | unlock id op =>
-    simp only [Call.run]
-    split
-    · rename_i s' h
-      have hsm := sameMined_unlockOutput h
-      have huc : s'.unminedCredits = s.unminedCredits := by
-        unfold unlockOutput at h
-        split at h
-        · cases h
-        · split at h
-          · cases h; rfl
-          · split at h
-            · cases h
-            · cases h; rfl
-      exact wf_of_sameMined hsm (by rw [huc]; exact hw.nodupUC) hw
-    · exact hw
-  | sweep =>
-    have huc : (deleteExpiredLockedOutputs s now).unminedCredits = s.unminedCredits := sweep_uc s now
-    show WF (deleteExpiredLockedOutputs s now)
-    exact wf_of_sameMined (sameMined_sweep s now) (by rw [huc]; exact hw.nodupUC) hw
-
-/-- run a history of calls; every call comes with the clock value at which it is made -/
-def runCalls : Store → List (Nat × Call) → Store
-  | s, [] => s
-  | s, p :: t => runCalls (p.2.run s p.1) t
-
-/-- the consistency precondition holds at every step of the history -/
-def PreAll : Store → List (Nat × Call) → Prop
-  | _, [] => True
-  | s, p :: t => p.2.Pre s ∧ PreAll (p.2.run s p.1) t
-
-theorem wf_empty : WF Store.empty := by
-  refine ⟨List.nodup_nil, List.nodup_nil, List.nodup_nil, List.Pairwise.nil, ?_, ?_, ?_, ?_, ?_, ?_, rfl⟩
-  · intro p hp; cases hp
-  · intro p hp; cases hp
-  · intro k rec h; cases h
-  · intro k1 k2 h; cases h
-  · intro k cv h; cases h
-  · intro op blk
-    constructor
-    · intro h; cases h
-    · rintro ⟨cv, h, _⟩; cases h
-
-theorem wf_runCalls (s : Store) (hw : WF s) (ops : List (Nat × Call)) (hp : PreAll s ops) : WF (runCalls s ops) := by
-  induction ops generalizing s with
-  | nil => exact hw
-  | cons p t ih => exact ih _ (wf_run s p.1 p.2 hw hp.1) hp.2
-
-/-- **Balance = the C01 sentence on the store's records after every chain-consistent history of store calls without
-`Rollback`**, starting from the empty store: any number of unconfirmed/confirmed insertions (with redelivery), credits,
-abandonments, leases, releases, sweeps, at any clock values; for every probe instant, maturity, minConf, syncHeight.
-`_partial`: the event *disconnected* (`Rollback`) is not covered by this theorem. -/
-theorem C01_balance_no_reorg_partial (ops : List (Nat × Call)) (hp : PreAll Store.empty ops)
-    (now : Nat) (mat m sy : Int) :
+/-- **C01, balance**: after every chain-consistent history of store calls — reorgs included —, at every prefix (a prefix
+of a consistent history is one), `Balance` for every probe instant, coinbase maturity, `minConf` and `syncHeight`
+equals the C01 sentence evaluated on the store's own records (`storeTruth`): the credited outputs without a mined
+spender that are not leased, not spent by an unconfirmed transaction, deep enough and (if coinbase) mature, plus at
+`minConf = 0` the unconfirmed credits that are neither leased nor spent. -/
+theorem C01_balance (ops : List (Nat × Call)) (hp : PreAll Store.empty ops) (now : Nat) (mat m sy : Int) :
     balance (runCalls Store.empty ops) now mat m sy = .ok (storeTruth (runCalls Store.empty ops) now mat m sy) :=
-  C01_balance_partial _ (inv_of_wf _ (wf_runCalls _ wf_empty ops hp)) now mat m sy
+  C01_balance_inv _ (C01_inv_reachable ops hp) now mat m sy
 
-/-- non-vacuity of `C01_balance_partial`: the example store satisfies `Inv` -/
+/-- non-vacuity of `C01_balance`: a consistent history (coinbase confirmed and credited, then rolled back) -/
+example : PreAll Store.empty
+    [(0, .insertMined ⟨1, [⟨0, nullIndex⟩], [5000]⟩ ⟨⟨1, 11⟩, 100⟩),
+     (0, .addCreditMined ⟨1, [⟨0, nullIndex⟩], [5000]⟩ ⟨⟨1, 11⟩, 100⟩ 0 false),
+     (7, .rollback 1)] := by
+  refine ⟨Or.inr ⟨⟨?_, ?_, ?_⟩, ?_, by decide⟩, ?_, trivial, trivial⟩
+  · intro k h; cases h
+  · intro br h; cases h
+  · intro op uc h; cases h
+  · intro inp b h; cases h
+  · show KMap.find? _ _ = some _
+    decide
+
+/-- non-vacuity of `C01_balance_inv`: the example store satisfies `Inv` -/
 example : Inv exStore := invB_sound _ (by decide)
 
 end TxStore.C01
